@@ -59,6 +59,18 @@ def handle (req : Json) : Json :=
         let args : List Val := (List.range nargs).map fun i => .obj 0 [] (1000 + i)
         let (a, kw) := callHandOver args (decKwargs (jget j "kw"))
         jo [("args", jl (a.map valTag)), ("kw", jl (kw.map fun p => jl [nmJ p.1, valTag p.2]))]))]
+  | "split" =>
+      -- {"c": conv, "decl": [[python name, declared alias | null] ..], "kw": [written keyword ..]} ->
+      -- {"bound": [names bound to a parameter], "starstar": [names handed to **kwargs]}
+      jo [("out", jl (items.map fun j =>
+        let c := decConv (jstr j "c")
+        let decl : List (Yaql.Types.Name × Option Yaql.Types.Name) := (jarr j "decl").map fun d =>
+          match asArr d with
+          | [n, a] => (nm (asStr n), if jisNull a then none else some (nm (asStr a)))
+          | _ => ([], none)
+        let kw : List (Yaql.Types.Name × Nat) := ((jarr j "kw").map fun k => nm (asStr k)).zipIdx
+        let (b, s) := splitKeywords c decl kw
+        jo [("bound", jl (b.map fun p => nmJ p.1)), ("starstar", jl (s.map fun p => jl [nmJ p.1, jn p.2]))]))]
   | o => jerr ("C12: unknown op " ++ o)
 
 end Yaql.Drv.C12
